@@ -160,8 +160,13 @@ def run_route(case, machine_case=None):
             machine.dead_chips.add((x, y))
     random.seed(case["seed"])
     with sut("route", (MachineHasDisconnectedSubregion,)):
-        routes = route(vr, nets, machine, constraints, placements,
-                       allocations, **kwargs)
+        if not allocations and case.get("omit_allocations"):
+            # allocations is an optional argument
+            routes = route(vr, nets, machine, constraints, placements,
+                           **kwargs)
+        else:
+            routes = route(vr, nets, machine, constraints, placements,
+                           allocations, **kwargs)
     return routes, nets, vobj
 
 
@@ -342,7 +347,30 @@ def strat_broadcast(draw, tier):
             "nets": [{"source": names[0], "sinks": names[1:], "weight": 1}],
             "radius": draw(st.sampled_from([1, 1, 2, 2, 3, 5])),
             "core_resource": None, "late_faults": None,
+            "omit_allocations": draw(st.booleans()),
             "seed": draw(st.integers(0, 1000)), "vkind": "str"}
+
+
+def enum_long(tier, shard, nshards):
+    """Nets whose tree is more than a thousand hops deep."""
+    shapes = [(1500, 1, True), (1, 1200, True), (2600, 1, False)]
+    for i, (w, h, mesh) in enumerate(shapes):
+        if i % nshards == shard:
+            yield {"machine": {"w": w, "h": h, "mesh": mesh,
+                               "resources": {"Cores": 18}, "exceptions": [],
+                               "dead_chips": [], "dead_links": []},
+                   "chip_of": {"v0": [0, 0], "v1": [w - 1 if mesh else w // 2,
+                                                    h - 1 if mesh else 0]},
+                   "alloc": {"v1": [1, 2]}, "endpoints": {},
+                   "nets": [{"source": "v0", "sinks": ["v1"], "weight": 1}],
+                   "radius": None, "core_resource": None, "late_faults": None,
+                   "seed": i, "vkind": "str"}
+
+
+def check_long(case):
+    out = check_route(case)
+    out["nontrivial"] = True
+    return out
 
 
 CLAUSES = [
@@ -368,6 +396,11 @@ CLAUSES = [
                 "tree; same non-triviality rule",
            examples={"quick": 2500, "thorough": 40000},
            shards={"quick": 8, "thorough": 16}),
+    Clause("long-net", check_long, enumerate=enum_long,
+           rule="a net from one end to the other of a 1500x1 / 1x1200 mesh "
+                "and half way round a 2600x1 torus: trees more than a "
+                "thousand hops deep; every case counts",
+           shards={"quick": 3, "thorough": 3}),
     Clause("broadcast", check_route, strategy=strat_broadcast,
            rule="one net of 20-80 sinks on a fault-free torus or mesh of "
                 "6-24 chips on a side with search radius 1-5 (the partial "
